@@ -18,9 +18,10 @@ type Ctx struct {
 	A *Anchors
 	R *Report
 
-	madeMemo  map[*types.Var]bool
-	portCover [2]bool
-	guardBusy map[*ssa.Function]bool
+	madeMemo     map[*types.Var]bool
+	portCover    [2]bool
+	guardBusy    map[*ssa.Function]bool
+	neverNilMemo map[*types.Var]int
 }
 
 // PropertySpec describes one property's rule set.
